@@ -141,8 +141,10 @@ impl TxWal {
         }
 
         let file = File::open(path)?;
+        let file_len = file.metadata()?.len();
         let mut reader = BufReader::new(file);
         let mut count = 0;
+        let mut offset = 0u64;
         let mut detected_format: Option<bool> = None; // None = unknown, Some(true) = V2, Some(false) = V1
 
         loop {
@@ -154,6 +156,13 @@ impl TxWal {
             }
 
             let len = u32::from_le_bytes(len_buf) as usize;
+
+            // A record cannot extend past the end of the file: treat it as a partial write
+            // instead of allocating a buffer for whatever the length field claims.
+            if offset + 8 + len as u64 > file_len {
+                break;
+            }
+            offset += 8 + len as u64;
 
             // Read potential checksum (4 bytes)
             let mut checksum_buf = [0u8; 4];
@@ -391,9 +400,11 @@ impl TxWal {
     /// Returns an error if the file cannot be read or a checksum mismatch is detected.
     pub fn replay_with_validation(&self, verify_checksums: bool) -> io::Result<Vec<TxWalEntry>> {
         let file = File::open(&self.path)?;
+        let file_len = file.metadata()?.len();
         let mut reader = BufReader::new(file);
         let mut entries = Vec::new();
         let mut entry_index = 0u64;
+        let mut offset = 0u64;
         let mut detected_format: Option<bool> = None; // None = unknown, Some(true) = V2, Some(false) = V1
 
         loop {
@@ -405,6 +416,13 @@ impl TxWal {
             }
 
             let len = u32::from_le_bytes(len_buf) as usize;
+
+            // A record cannot extend past the end of the file: treat it as a partial write
+            // instead of allocating a buffer for whatever the length field claims.
+            if offset + 8 + len as u64 > file_len {
+                break;
+            }
+            offset += 8 + len as u64;
 
             // Read potential checksum (4 bytes)
             let mut checksum_buf = [0u8; 4];
